@@ -26,6 +26,8 @@ pub struct Flags {
     pub encode: bool,
     pub slabs: bool,
     pub liveness_probe: bool,
+    /// a client never connects while its previous connection is still registered
+    pub no_takeover: bool,
     /// slots whose connections are asserted on; None = all
     pub witnesses: Option<Vec<usize>>,
     /// known-finding regions the interpreter keeps out of (main campaigns)
@@ -44,6 +46,9 @@ pub struct Avoid {
     pub empty_nonretained: bool,
     /// R11: UNSUBSCRIBE by a member of a shared group
     pub unsub_in_group: bool,
+    /// R10: completeness of a group is not demanded between a member's leaving and the next
+    /// matching publish
+    pub group_stall: bool,
 }
 
 /// Client-side bookkeeping of one connection
@@ -66,6 +71,7 @@ pub struct ClientView {
     /// PUBCOMPs received for this client's own QoS 2 publishes
     pub pubcomp_received: u64,
     pub acks_received: u64,
+    pub will_forwards: u64,
 }
 
 pub fn parse_serial(payload: &[u8]) -> Option<u64> {
@@ -188,10 +194,15 @@ impl Model {
                     let check_delivery = (flags.delivery || flags.shared || flags.retained || flags.will) && !tainted;
                     // identify the message: payloads carry the publish serial; an empty payload
                     // (retained clear) is identified by its topic among the empty publishes
+                    let mut empty_cands: Vec<usize> = Vec::new();
                     let idx: Option<usize> = if f.publish.payload.is_empty() {
                         let cands: Vec<usize> = (0..self.log.len())
                             .filter(|k| self.log[*k].payload.is_empty() && self.log[*k].topic.as_bytes() == &topic[..])
                             .collect();
+                        empty_cands = cands.clone();
+                        if std::env::var_os("VERIF_TRACE2").is_some() {
+                            eprintln!("  empty fwd topic={:?} cands={:?} groups={:?}", String::from_utf8_lossy(&topic), cands, self.groups);
+                        }
                         let fwd_ids: Vec<usize> = f
                             .properties
                             .as_ref()
@@ -200,7 +211,8 @@ impl Model {
                         cands
                             .iter()
                             .copied()
-                            .find(|k| !self.attribute(serial, *k, qos, &fwd_ids).0.is_empty())
+                            .find(|k| !self.attribute(serial, *k, qos, &fwd_ids).0.is_empty() || self.shared_possible(serial, *k, qos, false))
+                            .or(cands.iter().copied().find(|k| self.shared_possible(serial, *k, qos, true)))
                             .or(cands.first().copied())
                     } else {
                         parse_serial(&f.publish.payload).and_then(|s| self.by_serial.get(&s).copied())
@@ -219,6 +231,9 @@ impl Model {
                         }
                         continue;
                     };
+                    if self.wills_fired.iter().any(|(_, i)| *i == idx) {
+                        view.will_forwards += 1;
+                    }
                     if check_delivery {
                         let m = &self.log[idx];
                         ensure!(
@@ -239,16 +254,44 @@ impl Model {
                     if f.publish.retain {
                         // retained replay
                         let c = &self.conns[serial];
-                        let cand = c.subs.iter().enumerate().position(|(i, s)| {
-                            s.retained_due
-                                && s.end.is_none()
-                                && (s.qos == qos || s.qos_uncertain)
-                                && match3(&self.log[idx], &s.path) != M3::No
-                                && !view
-                                    .retained_got
-                                    .iter()
-                                    .any(|(gi, t, _)| *gi == i && *t == self.log[idx].topic)
-                        });
+                        let cand = c
+                            .subs
+                            .iter()
+                            .enumerate()
+                            .filter(|(i, s)| {
+                                // (a subscription removed before its replay was drained still counts)
+                                s.retained_due
+                                    && (s.qos == qos || s.qos_uncertain)
+                                    && match3(&self.log[idx], &s.path) != M3::No
+                                    && !view
+                                        .retained_got
+                                        .iter()
+                                        .any(|(gi, t, _)| gi == i && *t == self.log[idx].topic)
+                            })
+                            .collect::<Vec<_>>();
+                        let now = self.now();
+                        let any_candidate = !cand.is_empty();
+                        // the replay happens when the request is first served, normally right
+                        // after the SUBSCRIBE: among the subscriptions for which the value was the
+                        // topic's retained message at some moment of their window, prefer the newest
+                        let cand = cand
+                            .into_iter()
+                            .filter(|(_, s)| {
+                                self.retained_uncertain
+                                    || self
+                                        .retained_in_window(&self.log[idx].topic, s.made_at, now)
+                                        .contains(&Some(self.log[idx].serial))
+                            })
+                            .max_by_key(|(_, s)| s.made_at)
+                            .map(|(i, _)| i);
+                        if cand.is_none() && any_candidate && flags.retained && !tainted {
+                            fail!(
+                                "retained:stale_or_cleared_value",
+                                "a new subscription was replayed message {} for {:?}, which was not that topic's retained message at any time since the subscription was made",
+                                self.log[idx].serial,
+                                self.log[idx].topic
+                            );
+                        }
                         match cand {
                             Some(i) => {
                                 view.retained_got.push((i, self.log[idx].topic.clone(), self.log[idx].serial));
@@ -278,9 +321,28 @@ impl Model {
                         .unwrap_or_default();
                     let (mut new_states, saw_consumed, saw_gap, saw_qos, touched) =
                         self.attribute(serial, idx, qos, &fwd_ids);
+                    // messages with an empty payload on one topic are indistinguishable: every
+                    // candidate identity is explored, not only the first feasible one
+                    for k in empty_cands.iter().copied().filter(|k| *k != idx) {
+                        for st in self.attribute(serial, k, qos, &fwd_ids).0 {
+                            if !new_states.contains(&st) {
+                                new_states.push(st);
+                            }
+                        }
+                    }
+                    if std::env::var_os("VERIF_TRACE2").is_some() {
+                        eprintln!("  fwd idx={idx} qos={qos} -> {} states {:?}", new_states.len(), new_states.iter().map(|s| s.pos.clone()).collect::<Vec<_>>());
+                    }
                     let outside_only = touched == vec![usize::MAX];
                     if !outside_only {
-                        live_subs_touched.extend(touched);
+                        // a live forward closes the retained window of a subscription only when
+                        // it can belong to no other subscription
+                        let mut t = touched.clone();
+                        t.sort();
+                        t.dedup();
+                        if t.len() == 1 {
+                            live_subs_touched.extend(t);
+                        }
                     }
                     if !new_states.is_empty() {
                         if new_states.len() > MAX_STATES {
@@ -291,7 +353,7 @@ impl Model {
                             self.conns[serial].fwds.push(FwdMeta { pkid, qos, idx: Some(idx) });
                         }
                         self.conns[serial].frontier = new_states;
-                        if check_delivery {
+                        if check_delivery && !f.publish.payload.is_empty() {
                             self.check_props(serial, idx, f.properties.as_ref(), &fwd_ids)?;
                         }
                         continue;
@@ -404,19 +466,9 @@ impl Model {
                 _ => {}
             }
         }
-        // retained replays are delivered in one batch, before any live message of the subscription
-        if flags.retained && !tainted {
-            let touched: Vec<usize> = retained_subs_touched.union(&live_subs_touched).copied().collect();
-            for i in touched {
-                if self.conns[serial].subs[i].retained_due {
-                    self.finish_retained(serial, view, i)?;
-                }
-            }
-        } else {
-            for i in retained_subs_touched.union(&live_subs_touched) {
-                self.conns[serial].subs[*i].retained_due = false;
-            }
-        }
+        // the retained window of a subscription is closed at the next idle point (check_idle):
+        // a request that is paused (inflight full) is replayed its retained messages later
+        let _ = (&retained_subs_touched, &live_subs_touched);
         Ok(())
     }
 
@@ -560,6 +612,22 @@ impl Model {
         Ok(())
     }
 
+    /// Could message `idx` have reached this client through one of its shared groups?
+    fn shared_possible(&self, serial: usize, idx: usize, qos: u8, allow_twice: bool) -> bool {
+        let slot = self.conns[serial].slot;
+        let now = self.now();
+        self.conns[serial].subs.iter().filter(|s| s.group.is_some()).any(|s| {
+            (s.qos == qos || s.qos_uncertain)
+                && self.groups.iter().any(|g| {
+                    Some(&g.name) == s.group.as_ref()
+                        && idx >= g.created_at
+                        && match3(&self.log[idx], &g.path) != M3::No
+                        && (allow_twice || !g.delivered.contains_key(&idx))
+                        && g.members.iter().any(|(sl, joined, left)| *sl == slot && *joined <= now && left.map_or(true, |l| idx < l))
+                })
+        })
+    }
+
     fn try_shared(
         &mut self,
         serial: usize,
@@ -578,6 +646,9 @@ impl Model {
             .map(|s| (s.group.clone().unwrap(), s.qos, s.qos_uncertain))
             .collect();
         let mut twice: Option<usize> = None;
+        if std::env::var_os("VERIF_TRACE2").is_some() && idx >= 98 {
+            eprintln!("try_shared serial={serial} idx={idx} qos={qos} subs={subs:?} now={now}");
+        }
         for (gname, sq, unc) in subs {
             if sq != qos && !unc {
                 continue;
@@ -679,7 +750,10 @@ impl Model {
                     );
                 }
                 None => {
-                    if always && m3 == M3::Yes {
+                    // a replay attributed to another new subscription of this client that also
+                    // matches cannot be told apart from ours
+                    let elsewhere = view.retained_got.iter().any(|(si, t, _)| *si != i && t == topic);
+                    if always && m3 == M3::Yes && !elsewhere {
                         required += 1;
                         missing.push(topic.clone());
                     }
@@ -691,8 +765,11 @@ impl Model {
         }
         // the replay is bounded by the delivery window: a larger retained set may be cut
         let c = &self.conns[serial];
+        let _ = c;
         let window_free = if qos > 0 {
-            100usize.saturating_sub(c.fwds.len().saturating_sub(c.acked_fwds))
+            // free slots at the (unknown) moment of the replay: bounded below by what the
+            // client ever saw unacknowledged on this connection
+            100usize.saturating_sub(view.max_window + 1)
         } else {
             self.cfg.max_out as usize
         };
@@ -779,8 +856,28 @@ impl Model {
                 if !g.members.iter().all(|m| strict(m.0)) {
                     continue;
                 }
+                // known region R10 (flags.avoid.group_stall): after a member left, the others may
+                // stay parked until the next matching publish is accepted
+                if flags.avoid.group_stall {
+                    // ... and with the random / sticky strategies a member that read up to the
+                    // end of the log while it was not its turn is parked even though a message
+                    // is pending (the turn may then pass to it): completeness is demanded for
+                    // round robin only
+                    if self.cfg.strategy != 0 && g.members.len() > 1 {
+                        continue;
+                    }
+                    if let Some(from) = g.stall_from {
+                        let woken = (from..now).any(|k| match3(&self.log[k], &g.path) != M3::No);
+                        if !woken {
+                            continue;
+                        }
+                    }
+                }
                 for k in g.created_at..now {
                     if match3(&self.log[k], &g.path) == M3::Yes && !g.delivered.contains_key(&k) {
+                        if std::env::var_os("VERIF_TRACE2").is_some() {
+                            eprintln!("UNDELIVERED k={k} group={:?} members={:?} delivered_keys={:?}", g.name, g.members, g.delivered.keys().collect::<Vec<_>>());
+                        }
                         fail!(
                             "shared:undelivered_at_idle",
                             "message {} on {:?} was forwarded to no member of group {} although the group was never empty and the broker is idle",
